@@ -44,6 +44,15 @@ class C06(Prop):
             m = rng.randint(2, 4); surplus = rng.randint(1, 3)
             sys = gs.gen_system(rng, mrange=(m, m), nrange=(m + surplus, m + surplus), finite_ub=True)
             nn = sys["n"]
+            if sys["Kkind"] == "matrix" and rng.random() < 0.6:
+                # opponent-type adaptation matrices: transformed captures may DEcrease with intensity
+                K2 = np.eye(m) * rng.choice([1.0, 0.5, 2.0])
+                for i in range(m):
+                    for j in range(m):
+                        if i != j and rng.random() < 0.6:
+                            K2[i, j] = rng.randint(-8, 8) / 16
+                if gs.well_scaled(sys["A"], sys["lb"], sys["ub"], K2, sys["baseline"]):
+                    sys = dict(sys, K=K2)
             dep = ib = False
             if rng.random() < 0.2:
                 # linearly dependent sources: one LED twice, at half or double power
